@@ -43,9 +43,11 @@ where
     pub(crate) fn spawn(options: CheckerBuilder<M>) -> Self {
         let model = Arc::new(options.model);
         let target_state_count = options.target_state_count;
+        let target_max_depth = options.target_max_depth;
         let thread_count = options.thread_count;
         let visitor = Arc::new(options.visitor);
-        let property_count = model.properties().len();
+        let finish_when = Arc::new(options.finish_when);
+        let properties = Arc::new(model.properties());
 
         let mut controlflow_channels = Vec::new();
         let (controlflow_to_check_sender, controlflow_to_check_receiver) =
@@ -95,6 +97,8 @@ where
         for t in 0..thread_count {
             let model = Arc::clone(&model);
             let visitor = Arc::clone(&visitor);
+            let finish_when = Arc::clone(&finish_when);
+            let properties = Arc::clone(&properties);
             let mut job_broker = job_broker.clone();
             let state_count = Arc::clone(&state_count);
             let max_depth = Arc::clone(&max_depth);
@@ -185,6 +189,7 @@ where
                                 &discoveries,
                                 &visitor,
                                 1500,
+                                target_max_depth,
                                 &max_depth,
                             );
                             pending.append(&mut targetted_pending);
@@ -194,7 +199,10 @@ where
                                 log::debug!("{}: Market shut down. Shutting down...", t);
                                 return;
                             }
-                            if discoveries.len() == property_count {
+                            if finish_when.matches(
+                                &discoveries.iter().map(|r| *r.key()).collect(),
+                                &properties,
+                            ) {
                                 log::debug!(
                                     "{}: Discovery complete. Shutting down... gen={}",
                                     t,
@@ -259,6 +267,7 @@ where
         discoveries: &DashMap<&'static str, Fingerprint>,
         visitor: &Option<Box<dyn CheckerVisitor<M> + Send + Sync>>,
         max_count: usize,
+        target_max_depth: Option<NonZeroUsize>,
         global_max_depth: &AtomicUsize,
     ) {
         let properties = model.properties();
@@ -283,6 +292,13 @@ where
                     Ordering::Relaxed,
                 );
                 current_max_depth = max_depth.get();
+            }
+
+            if let Some(target_max_depth) = target_max_depth {
+                if max_depth >= target_max_depth {
+                    log::trace!("Skipping state as past max depth {}", max_depth);
+                    continue;
+                }
             }
 
             if let Some(visitor) = visitor {
